@@ -471,3 +471,23 @@ def int_of(t):
         return None
     m = __import__("re").match(r"^(-?\d+)(?:_[iu](?:8|16|32|64|128|size))?$", v)
     return int(m.group(1)) if m else None
+
+
+def vec_macro_elements(body, o, t):
+    """Element terms of a `vec![a, b, ..]` value (lowered as Box::new_uninit + array write + into_vec)."""
+    s = strip_identity(t)
+    if not (s[0] == "call" and name_matches(s[1], "boxed::box_assume_init_into_vec_unsafe")):
+        return None
+    inner = strip_identity(s[2][0])
+    if not (inner[0] == "call" and name_matches(inner[1], "boxed::Box::new_uninit")):
+        return None
+    c = body.call_at(inner[3])
+    if c is None or not isinstance(c.dest, int):
+        return None
+    out = None
+    for d in body.defs().get(c.dest, []):
+        if d[0] == "partial" and d[3].get("k") == "assign" and d[3]["rv"]["k"] == "agg" and d[3]["rv"]["ak"] == "array":
+            if out is not None:
+                return None
+            out = [o.of_operand(x) for x in d[3]["rv"]["ops"]]
+    return out
